@@ -44,14 +44,36 @@ def run(ctx: Ctx) -> None:
     parse = pm.fn("parse")
     handlers = [h for t in walk_local(parse) if isinstance(t, ast.Try) for h in t.handlers]
     msgs = []
-    for h in handlers:
-        for st in ast.walk(h):
-            if isinstance(st, ast.Assign) and isinstance(st.value, ast.JoinedStr) and any(isinstance(t, ast.Name) for t in st.targets):
-                msgs.append((h, st))
     cfg = pm.cfg("parse")
     rd = reaching_defs(cfg, skip_exc=False)
-    for h, st in msgs:
-        js: ast.JoinedStr = st.value  # type: ignore
+    # every message text that can reach a `raise CxxParseError(<text>)` of the handler: written in place or through a local
+    def leading(e: ast.AST, at, holder, depth: int = 0):
+        """the format strings the text of `e` can begin with"""
+        if isinstance(e, ast.JoinedStr):
+            return [(holder, e)]
+        if isinstance(e, ast.BinOp) and isinstance(e.op, ast.Add):
+            return leading(e.left, at, holder, depth)
+        if isinstance(e, ast.Name) and at is not None and depth < 4:
+            out = []
+            for di in rd.get(at.id, {}).get(e.id, ()):
+                dn = cfg.nodes[di]
+                ds = dn.stmt
+                if isinstance(ds, ast.Assign) and len(ds.targets) == 1 and isinstance(ds.targets[0], ast.Name):
+                    out += leading(ds.value, dn, ds, depth + 1)
+                else:
+                    out.append((holder, None))
+            return out or [(holder, None)]
+        return [(holder, None)]
+
+    for h in handlers:
+        for st in ast.walk(h):
+            if isinstance(st, ast.Raise) and isinstance(st.exc, ast.Call) and norm(st.exc.func) == "CxxParseError" and st.exc.args:
+                for holder, js_ in leading(st.exc.args[0], node_containing(cfg, st), st):
+                    msgs.append((h, holder, js_))
+    for h, st, js in msgs:
+        if js is None:
+            ctx.ob("R6.1m", f"parser:CxxParser.parse|message `{short(st, 60)}`", False, msg="the error message is not a format string that starts with the file name", node=st, mod=mod)
+            continue
         vals = js.values
         ok = False
         why = "the message does not start with a file name"
